@@ -20,7 +20,8 @@ RULE = ('abstract programs over the full instruction set (nesting <= 4, '
         'OP_/bare/alias, letter case, {} / END_*, d/x/s/f prefixes, comments '
         'in 3 delimiters, whitespace); plus a fixed battery of hand-written '
         'positional cases. distinct = by source text; non-trivial = >= 1 '
-        'block construct or >= 1 non-canonical spelling feature')
+        'block construct or >= 1 non-canonical spelling feature'
+        ' [plus the unencodable-source workload (17 classes of instructions the encoding has no room for x 10 block positions: accepting is a violation unless the one fitting reading was assembled), calls of macros an earlier source defined, integers up to 40 bytes spelled in decimal]')
 ASSUMPTIONS = [
     'reference assembler transcribes docs.md operand formats (ref/isa.py)',
     'a raised error is always admissible (rejected instead of mis-assembled); '
